@@ -23,7 +23,7 @@ def parseStmt (t : String) : Option Stmt :=
   | "p" :: ms => (ms.mapM parseMember).map (.pipe false)
   | "np" :: ms => (ms.mapM parseMember).map (.pipe true)
   | "bg" :: ms => if ms.isEmpty then none else (ms.mapM parseMember).map .bg
-  | "wj" :: ks => if ks.isEmpty then none else (ks.mapM (·.toNat?)).map .wj
+  | "wj" :: ks => if ks.isEmpty then none else (ks.mapM (fun (k : String) => k.toNat?)).map .wj
   | ["w"] => some .w
   | ["wu"] => some .wu
   | ["g", n] => n.toNat?.map .g
